@@ -40,6 +40,7 @@ def run(rep, ctx):
     except AnalysisError as e:
         rep.error("C05.R5", str(e))
     rep.run_rule("C05.R6", "a simple Quantity stores a unit only after CheckCategoryUnit accepted it for the category", r6_quantity_init, ctx)
+    rep.run_rule("C05.R8", "a derived Quantity is created only after every (category, unit) entry was checked against the category's quantity type", r8_create_derived, ctx)
     rep.run_rule("C05.R7", "failed or successful operations write nothing: registry-pure entry points, operands' composing maps never reached by a sink", r7_change_nothing, ctx)
     rep.not_decided += [
         "false rejection of dimension-compatible operands written with different symbols (m.m vs m2)",
@@ -385,3 +386,55 @@ def r7_change_nothing(rep, ctx):
             rep.ok("C05.R7", "ObtainQuantity:%s" % norm(ast.unparse(st))[:60], "the intern-table store is sequenced after the constructor call of the same statement: a raising constructor stores nothing", node=st, fn=oq)
     # operands' composing maps: borrow the ownership rule of C07 (all sinks and call-site obligations)
     borrow(rep, c07.r3_ownership, ctx, "C07.R3", "C05.R7")
+
+
+def r8_create_derived(rep, ctx):
+    m = ctx.model
+    fn = m.method("Quantity", "_CreateDerived")
+    cfg = CFG(fn.node)
+    res = Resolver(m, fn)
+    loops = [lp for lp in own_statements(fn.node) if isinstance(lp, ast.For) and any(isinstance(x, ast.Attribute) and x.attr == "items" for x in ast.walk(lp.iter))]
+    if len(loops) != 1:
+        raise AnalysisError("Quantity._CreateDerived: the validation loop over the composing entries was not found")
+    lp = loops[0]
+    names = [x.id for x in ast.walk(lp.target) if isinstance(x, ast.Name)]
+    if len(names) < 2:
+        raise AnalysisError("Quantity._CreateDerived: loop target is not (category, (unit, exp))")
+    cat_v, unit_v = names[0], names[1]
+    H = cfg.node_of(lp)
+    checks = []
+    for c in own_nodes(lp):
+        if isinstance(c, ast.Call) and isinstance(c.func, ast.Attribute) and c.func.attr in ("CheckQuantityTypeUnit", "CheckCategoryUnit"):
+            args = [ast.unparse(a) for a in c.args]
+            good = len(args) == 2 and args[1] == unit_v and (
+                (c.func.attr == "CheckQuantityTypeUnit" and args[0].endswith(".quantity_type") and cat_v in ast.unparse(next((st.value for st in own_statements(lp) if isinstance(st, ast.Assign) and ast.unparse(st.targets[0]) == args[0].split(".")[0]), ast.Constant(value=""))))
+                or (c.func.attr == "CheckCategoryUnit" and args[0] == cat_v))
+            rep.check(good, "C05.R8", "_CreateDerived:%s" % norm(ast.unparse(c)), "the entry's unit is checked against the quantity type of the entry's own category",
+                      "`%s` does not check the entry's unit against its own category's quantity type" % norm(ast.unparse(c)), node=c, fn=fn)
+            if good:
+                checks.append(cfg.node_of(c))
+    # one iteration: from the header's T edge back to the header, every path passes a check
+    # unless the unit is None (then the category default is taken)
+    none_edges = set()
+    for nid in cfg.nodes("test"):
+        e = cfg.ast[nid]
+        if isinstance(e, ast.Compare) and isinstance(e.left, ast.Name) and e.left.id == unit_v and isinstance(e.comparators[0], ast.Constant) and e.comparators[0].value is None:
+            lab = "T" if isinstance(e.ops[0], ast.Is) else "F"
+            none_edges |= {(nid, b, l) for (b, l) in cfg.succ[nid] if l == lab}
+    r = cfg.reach(H, avoid=set(checks), avoid_edges=none_edges, start_edges={"T"})
+    rep.check(bool(checks) and H not in r, "C05.R8", "_CreateDerived:every-entry-checked", "every iteration over an entry with a unit passes the unit check (entries without a unit take the category default)",
+              "an iteration of the validation loop can complete without checking the entry's unit (check skipped for repeated units, cached, or conditional): a unit of another quantity type builds a derived Quantity",
+              node=lp, fn=fn, facts={"entry": fn.qual, "offending_exit": "next iteration / loop exit without the check"})
+    # the loop itself runs whenever validation is requested, and the public CreateDerived requests it
+    par = lp._parent
+    ok = isinstance(par, ast.If) and ast.unparse(par.test) == "validate_category_and_units"
+    rep.check(ok, "C05.R8", "_CreateDerived:validation-flag", "the validation loop runs under the validate flag", "the validation loop is not guarded by exactly the validate flag", fn=fn)
+    pub = m.method("Quantity", "CreateDerived")
+    calls = [c for c in own_nodes(pub.node) if isinstance(c, ast.Call) and isinstance(c.func, ast.Attribute) and c.func.attr == "_CreateDerived"]
+    ok = len(calls) == 1 and not any(k.arg == "validate_category_and_units" for k in calls[0].keywords) and len(calls[0].args) == 1
+    default_true = False
+    a = fn.node.args
+    for arg, d in zip(a.args[len(a.args) - len(a.defaults):], a.defaults):
+        if arg.arg == "validate_category_and_units":
+            default_true = isinstance(d, ast.Constant) and d.value is True
+    rep.check(ok and default_true, "C05.R8", "CreateDerived:validates", "the public CreateDerived validates (flag left at its default True)", "the public CreateDerived switches validation off", fn=pub)
